@@ -173,6 +173,7 @@ class Compiler:
         # id of next temporary pattern
         next_temp = -1
         # First number rule names
+        temp_pats_of = {}
         for rule in self.lvs.rules:
             temp_pats = {}
             # First number all patterns in name
@@ -197,7 +198,11 @@ class Compiler:
                         c.id = str(next_named)
                         next_named += 1
                         self.named_pats[pid] = c.id
-            # Now adapt constraints
+            temp_pats_of[id(rule)] = temp_pats
+        # Now adapt constraints, after all rule names are numbered,
+        # so a constraint can refer to a pattern of a rule that is sorted later
+        for rule in self.lvs.rules:
+            temp_pats = temp_pats_of[id(rule)]
             for cons_set in rule.comp_cons:
                 for cons in cons_set:
                     try:
